@@ -356,6 +356,13 @@ def run(tier, seed):
             src = "\n".join(lines) + "\n"
             meta[cid] = (cpu, [{"k": "sweep", "c": k}], src, stmts)
             jobs.append((os.path.join(vdir, "naken_asm"), wd, cid, src))
+            # the same statements far down a long source file: the instructions stand on lines 65533.. (the assembler keeps
+            # a source line per byte next to its data markers; nothing in the listing model depends on the line number)
+            if k == 0 and (tier == "thorough" or (ci + seed) % 8 == 0):
+                deep = [lines[0]] + ["; line %d" % n for n in range(2, 65531)] + lines[1:]
+                cid = "%s_deep" % cpu
+                meta[cid] = (cpu, [{"k": "deep", "c": 0}], "\n".join(deep) + "\n", stmts)
+                jobs.append((os.path.join(vdir, "naken_asm"), wd, cid, "\n".join(deep) + "\n"))
     with ThreadPoolExecutor(C.NCPU) as ex:
         results = list(ex.map(run_one, jobs))
 
